@@ -12,4 +12,5 @@ def replace(header_prefix, tool):
     lines[i:j] = new
 replace('| property | status | commit in /repo |', '/verif/tools/findings_table.py')
 replace('| seed | what the change does |', '/verif/tools/seed_table.py')
+replace('| ID | sub-checks (quick cases / thorough cases per shard', '/verif/tools/status_table.py')
 open(p, 'w').write('\n'.join(lines))
